@@ -355,6 +355,11 @@ def safe_run(ctx, case):
         if where == "harness":
             raise
         ctx.case(case, nontrivial=False)
+        if ctx.pid == "C01" and not (0.0 < float(case.get("s", 1.0)) <= 2.0) and where.endswith(":__init__"):
+            # C01 quantifies over scale factors in (0, 2]: a constructor that REFUSES s = 0 does not contradict it
+            # (benign change C01-3).  Where the map is built, the law is checked for s = 0 as for any other value.
+            ctx.count("outside-quantifier:scale-factor-refused-by-the-constructor")
+            return None
         ctx.oracle_fail(f"exchange_map:raises-{type(e).__name__}@{where}:{case.get('cls', '?')}", case, {"error": repr(e)})
         return None
 
